@@ -1,12 +1,14 @@
 PROP = {
     "id": "C34",
     "theorem_modules": ["Verif.Properties.C34"],
-    "min_theorems": 5,
+    "min_theorems": 7,
     "required_theorems": [
         "Verif.Properties.C34.peephole_jumps",
         "Verif.Properties.C34.peephole_jumps_land",
         "Verif.Properties.C34.simulation_expr_partial",
         "Verif.Properties.C34.simulation_expr_err_partial",
+        "Verif.Properties.C34.simulation_stmt_partial",
+        "Verif.Properties.C34.simulation_body_partial",
     ],
     "streams": [
         {"name": "vmeq", "driver": "drv_lang",
@@ -21,8 +23,12 @@ PROP = {
     "level_text": "partial: Lean theorems about (a) a line-by-line port of the peephole pass (every patched jump targets the "
                   "image of its original target, no target inside or at the start of a rewritten window; all instruction "
                   "lists, all pattern tables without jump opcodes) tied by stream `peep` on the real compiler's output, and "
-                  "(b) a model compiler + stack machine for muCadence L0 (simulation; see the theorem names ending in "
-                  "_partial for what is proved). Stream `vmeq`: every generated program runs on the interpreter, the VM and "
+                  "(b) a model compiler + stack machine for muCadence L0: forward simulation proved for the call-free "
+                  "fragment - expressions (value and error case: same value, same error class and kind) and statements "
+                  "(let/var, assignment, if/else, while with break/continue, return: same control flow, same value, "
+                  "same trace, locals agree with the environment), lifted to a whole activation of the step-counting "
+                  "machine runFrames; see the theorems ending in _partial for what is missing (invocations, "
+                  "statement errors, ??, L1/L2). Stream `vmeq`: every generated program runs on the interpreter, the VM and "
                   "the VM with peephole optimisation (hook runtime/verif_hooks.go) from fresh identical ledgers; result "
                   "value, error class and kind, logs and event count are compared with each other (Go-vs-Go, no model "
                   "needed) and with the model for in-fragment programs.",
